@@ -4,6 +4,7 @@ import AnyTLS.Drv.Frame
 import AnyTLS.Drv.Sess
 import AnyTLS.Drv.Pipe
 import AnyTLS.Drv.Dest
+import AnyTLS.Drv.Push
 
 open AnyTLS.Drv
 
@@ -11,6 +12,7 @@ structure DrvState where
   sess : Option MNode := none
   pipe : Option MPipe := none
   dns : AnyTLS.DnsCache := []
+  proc : Option MProc := none
 
 def sessLine (st : DrvState) (toks : List String) : DrvState × String :=
   match toks with
@@ -40,11 +42,26 @@ def pipeLine (st : DrvState) (toks : List String) : DrvState × String :=
       | some (p', o) => ({ st with pipe := some p' }, o)
       | none => (st, "bad-op")
 
+def pushLine (st : DrvState) (toks : List String) : DrvState × String :=
+  match toks with
+  | ["begin"] =>
+    match procBegin with
+    | some p => ({ st with proc := some p }, "ok")
+    | none => (st, "bad-op")
+  | _ =>
+    match st.proc with
+    | none => (st, "nonode")
+    | some p =>
+      match pushOp p toks with
+      | some (p', o) => ({ st with proc := some p' }, o)
+      | none => (st, "bad-op")
+
 def dispatch (st : DrvState) (line : String) : DrvState × String :=
   match tokens line with
   | "frame" :: rest => (st, frameOp rest)
   | "sess" :: rest => sessLine st rest
   | "auth" :: rest => (st, authOp rest)
+  | "push" :: rest => pushLine st rest
   | "dest" :: rest => (st, destOp rest)
   | "dns" :: rest => let (c, o) := dnsOp st.dns rest; ({ st with dns := c }, o)
   | "pad" :: "preamble" :: rest => (st, preambleOp rest)
